@@ -427,6 +427,7 @@ func main() {
 		shrinkS = 120
 	}
 	var sums []*summary
+	phaseTrouble := ""
 	for gi, group := range pl.phases {
 		var pwg sync.WaitGroup
 		var mu sync.Mutex
@@ -480,7 +481,9 @@ func main() {
 		}
 		pwg.Wait()
 		if trouble != "" {
-			die(2, "phase group %d: %s", gi, trouble)
+			// A killed or crashed worker is machinery trouble - unless replay files show why:
+			// violations found before it died are verified below in fresh processes and reported.
+			phaseTrouble += fmt.Sprintf("phase group %d: %s", gi, trouble)
 		}
 	}
 	files, _ := filepath.Glob(filepath.Join(outDir, "summary.*.json"))
@@ -496,8 +499,49 @@ func main() {
 		}
 		sums = append(sums, &s)
 	}
-	if len(sums) == 0 {
+	if len(sums) == 0 && phaseTrouble == "" {
 		die(2, "no worker summaries")
+	}
+	if phaseTrouble != "" {
+		// harvest the replay files of workers that never wrote a summary
+		known := map[string]bool{}
+		for _, s := range sums {
+			for _, v := range s.Violations {
+				known[v.ReplayFile] = true
+			}
+		}
+		orphans, _ := filepath.Glob(filepath.Join(repDir, "*.json"))
+		sort.Strings(orphans)
+		extra := &summary{Engine: "harvested", Faults: map[string]int64{}, Probes: map[string]int64{}, OutClasses: map[string]int64{}, PerTarget: map[string]int64{}, PerFn: map[string]int64{}, TraceHashes: map[string]string{}}
+		for _, f := range orphans {
+			if known[f] {
+				continue
+			}
+			b, err := os.ReadFile(f)
+			if err != nil {
+				continue
+			}
+			var rf struct {
+				Build map[string]string `json:"build"`
+				Viol  struct {
+					Sig    string `json:"signature"`
+					Class  string `json:"class"`
+					Detail string `json:"detail"`
+				} `json:"violation"`
+				RunSeed uint64 `json:"run_seed"`
+			}
+			if json.Unmarshal(b, &rf) != nil || rf.Viol.Sig == "" {
+				continue
+			}
+			extra.Violations = append(extra.Violations, &vioRecord{Sig: rf.Viol.Sig, Class: rf.Viol.Class, Detail: rf.Viol.Detail, Count: 1, FirstSeed: rf.RunSeed, ReplayFile: f, Calls: 1 << 20})
+			extra.Race = rf.Build["race"] == "true"
+		}
+		if len(extra.Violations) > 0 {
+			sums = append(sums, extra)
+		}
+		if len(sums) == 0 {
+			die(2, "%s", phaseTrouble)
+		}
 	}
 
 	// determinism cross-check: the same run index executed by two workers must give the same trace hash
@@ -561,6 +605,12 @@ func main() {
 			agg.Faults[k] += v
 		}
 		for k, v := range s.Probes {
+			if strings.HasPrefix(k, "max_") {
+				if v > agg.Probes[k] {
+					agg.Probes[k] = v
+				}
+				continue
+			}
 			agg.Probes[k] += v
 		}
 		for k, v := range s.OutClasses {
@@ -618,6 +668,7 @@ func main() {
 	}
 	sort.Strings(sigs)
 	nViol := 0
+	nVerified := 0
 	var knownHit []string
 	var lines []string
 	for _, sg := range sigs {
@@ -651,6 +702,9 @@ func main() {
 				if strings.Contains(string(out), "\nREPRODUCED property=") && strings.Contains(string(out), "same_trace=true") {
 					ok++
 				}
+			}
+			if ok > 0 {
+				nVerified++
 			}
 			stable = fmt.Sprintf("%d/2 fresh-process replays reproduced the violation with the same trace hash", ok)
 			var m map[string]any
@@ -745,6 +799,12 @@ func main() {
 	}
 	for _, l := range lines {
 		fmt.Println(l)
+	}
+	if phaseTrouble != "" {
+		if nVerified == 0 {
+			die(2, "%s", phaseTrouble)
+		}
+		fmt.Printf("note: some workers did not finish (%s); the violations above were found before that and reproduce in fresh processes\n", strings.TrimSpace(tail(phaseTrouble, 600)))
 	}
 	if nViol > 0 {
 		cleanup()
